@@ -574,8 +574,7 @@ def alphabet_full():
 
 def alphabet_reduced():
     return [["x", OK], ["x", H(400)],
-            ["p", 0, S("running")], ["p", 0, S("completed")], ["p", 0, S("error")], ["p", 0, S("unknown")],
-            ["p", 0, S("cancel_requested", "q")], ["c", S("waiting", "q"), OK],
+            ["p", 0, S("running", "q")], ["p", 0, S("completed")], ["p", 0, S("error", "z")], ["p", 0, S("unknown")],
             ["p", 0, H(429)], ["p", 0, H(500)], ["p", 0, CONN], ["p", 2, S("canceled")], ["p", 1, CONN],
             ["c", S("running"), OK], ["c", CONN, OK], ["c", CONN, H(500)],
             ["r", CONN, CONN, OK, True], ["r", S("error"), CONN, OK, True], ["r", CONN, CONN, OK, False],
